@@ -55,10 +55,11 @@ FRAG_GROUPS = {
     "jsonld": (["_get_expanded_term", "_get_jsonld_context"], []),
     "index": (["_index"], []),
     "merge": (["_merge"], []),
+    "rewire": (["_get_curie_preferred_or_synonym", "_get_uri_preferred_or_synonym", "rewire", "remap_uri_prefixes"], []),
 }
 FRAG_OF = {"C01": ["base", "uri"], "C02": ["base", "curie", "all"], "C03": ["base", "uri", "curie"], "C06": ["base", "curie", "std"],
            "C07": ["base", "uri", "curie", "mixed"], "C08": ["base", "uri", "curie", "all", "std", "mixed"],
-           "C05": ["index", "merge"], "C14": ["shacl", "epm", "jsonld"]}
+           "C05": ["index", "merge"], "C14": ["shacl", "epm", "jsonld"], "C12": ["rewire"]}
 
 BATCH = int(os.environ.get("VERIF_BATCH", "6000"))
 
